@@ -230,9 +230,9 @@ V("C14-a-no-cond1-scalar", "C14", "C14.2", (OPT, "bisect_now = cond1 or (mflag a
 V("C14-a2-no-cond1-vector", "C14", "C14.2", (OPT, "        mask = cond1\n        cond2 =", "        mask = D.ar_numpy.zeros_like(cond1)\n        cond2 ="))
 V("C14-b-no-cap", "C14", "C14.4", (OPT, "        if numiter >= 64:\n            break\n", ""))
 V("C14-b2-no-cap-vec", "C14", "C14.4", (OPT, "        conv = conv & (numiter <= 64)\n", ""))
-V("C14-c-abs-success", "C14", "C14.1", (OPT, "        return b, fa * fb <= 0\n", "        return b, D.ar_numpy.abs(fb) <= tol\n"))
+V("C14-c-abs-success", "C14", "C14.1", (OPT, "        return b, D.ar_numpy.sign(fa) * D.ar_numpy.sign(fb) <= 0\n", "        return b, D.ar_numpy.abs(fb) <= tol\n"))
 V("C14-d-vector-cond3", "C14", "C14.2", (OPT, "cond3 = D.ar_numpy.logical_and(D.ar_numpy.logical_not(mflag), D.ar_numpy.abs(s - b) >= D.ar_numpy.abs(c - d) / 2)", "cond3 = D.ar_numpy.logical_and(mflag, D.ar_numpy.abs(s - b) >= D.ar_numpy.abs(c - d) / 2)"))
-V("C14-e-eps-product", "C14", "C14.1", (OPT, "    if fa * fb > 0:\n        return", "    if fa * fb >= D.epsilon(lower_bound.dtype):\n        return"))
+V("C14-e-eps-product", "C14", "C14.5", (OPT, "    if D.ar_numpy.sign(fa) * D.ar_numpy.sign(fb) > 0:\n        return", "    if D.ar_numpy.sign(fa) * D.ar_numpy.sign(fb) >= D.epsilon(lower_bound.dtype):\n        return"))
 V("C14-f-interval-3ab", "C14", "C14.2", (OPT, "cond1 = not ((3 * a + b) / 4 < s < b or b < s < (3 * a + b) / 4)", "cond1 = not ((3 * a + b) / 4 < s < b or b < s < (a + 3 * b) / 4)"))
 V("C14-s-cond-order", "C14", "silent", (OPT, "bisect_now = cond1 or (mflag and cond2) or (not mflag and cond3) or (mflag and cond4) or (not mflag and cond5)", "bisect_now = (mflag and (cond2 or cond4)) or (not mflag and (cond3 or cond5)) or cond1"))
 
@@ -332,9 +332,9 @@ V("C04-j-controller-back", "C04", "C04.2", (ITY, "            if not self.is_ada
 V("C06-k-fsal-implicit", "C06", "C06.6", (ITY, "        if self.is_fsal and self.is_explicit:\n            self.dState = intermediate_dstate\n            self.final_rhs = intermediate_rhs\n        else:\n            self.dState = timestep * D.ar_numpy.sum(self.stage_values * self.tableau_final[0, 1:], axis=-1)\n            self.final_rhs = rhs(",
    "        if self.is_fsal and self.is_explicit:\n            self.dState = intermediate_dstate\n        else:\n            self.dState = timestep * D.ar_numpy.sum(self.stage_values * self.tableau_final[0, 1:], axis=-1)\n        if self.is_fsal:\n            self.final_rhs = intermediate_rhs\n        else:\n            self.final_rhs = rhs("))
 V("C09-l-sort-elapsed", "C09", "C09.1", (DS, "order = D.ar_numpy.argsort(D.ar_numpy.sign(t_next - t_prev) * roots)", "order = D.ar_numpy.argsort(roots - t_prev)"))
-V("C14-g-endpoint-reject", "C14", "C14.5", (OPT, "    if fa * fb > 0:\n        return D.ar_numpy.asarray(numpy.inf, like=lower_bound), False", "    if fa * fb >= 0:\n        return D.ar_numpy.asarray(numpy.inf, like=lower_bound), False"))
+V("C14-g-endpoint-reject", "C14", "C14.5", (OPT, "    if D.ar_numpy.sign(fa) * D.ar_numpy.sign(fb) > 0:\n        return D.ar_numpy.asarray(numpy.inf, like=lower_bound), False", "    if D.ar_numpy.sign(fa) * D.ar_numpy.sign(fb) >= 0:\n        return D.ar_numpy.asarray(numpy.inf, like=lower_bound), False"))
 V("C14-h-vec-no-zero", "C14", "C14.5", (OPT, "        true_conv = D.ar_numpy.logical_or(bracketed, fb == 0)\n\n    if verbose:", "        true_conv = bracketed\n\n    if verbose:"))
-V("C14-s-reject-flipped", "C14", "silent", (OPT, "    if fa * fb > 0:\n        return D.ar_numpy.asarray(numpy.inf, like=lower_bound), False", "    if 0 < fa * fb:\n        return D.ar_numpy.asarray(numpy.inf, like=lower_bound), False"))
+V("C14-s-reject-flipped", "C14", "silent", (OPT, "    if D.ar_numpy.sign(fa) * D.ar_numpy.sign(fb) > 0:\n        return D.ar_numpy.asarray(numpy.inf, like=lower_bound), False", "    if 0 < D.ar_numpy.sign(fa) * D.ar_numpy.sign(fb):\n        return D.ar_numpy.asarray(numpy.inf, like=lower_bound), False"))
 V("C15-i-nan-accept", "C15", "C15.4", (OPT, "        no_progress = not (D.ar_numpy.max(gain) > 0)", "        no_progress = D.ar_numpy.max(gain) <= 0"))
 V("C15-s-accept-positive", "C15", "silent", (OPT, "        no_progress = not (D.ar_numpy.max(gain) > 0)\n        if not no_progress:", "        progress = D.ar_numpy.max(gain) > 0\n        no_progress = not progress\n        if progress:"))
 V("C20-l-alias-rhs", "C20", "C20.5", (DS, "            import copy\n            self.equ_rhs = copy.copy(equ_rhs)", "            self.equ_rhs = equ_rhs"))
@@ -350,11 +350,11 @@ V("C05-k-rich-noretry", "C05", "C05.5", (ITY, "            if redo_step:\n      
 V("C05-l-rich-retry-same", "C05", "C05.5", (ITY, "                timestep, (self.dTime, self.dState) = self(rhs, initial_time, initial_state, constants,\n                                                           next_timestep)", "                timestep, (self.dTime, self.dState) = self(rhs, initial_time, initial_state, constants,\n                                                           dt0)"))
 V("C05-m-rich-redo-cleared", "C05", "C05.5", (ITY, "            else:\n                next_timestep = new_timestep\n", "            else:\n                next_timestep = new_timestep\n                redo_step = False\n"))
 V("C05-n-rich-estimate", "C05", "C05.5", (ITY, "self.stage_values[m - 1, n - 1]), self.stage_values[m - 1, m - 1] - self.stage_values[m, m]", "self.stage_values[m - 1, n - 1]), self.stage_values[m - 1, m - 1] - self.stage_values[m - 1, m - 2]"))
-V("C14-i-bracket-wrong-sign", "C14", "C14.6", (OPT, "        if fa * fs < 0:\n            b = s\n            fb = fs\n        else:\n            a = s\n            fa = fs", "        if fb * fs < 0:\n            b = s\n            fb = fs\n        else:\n            a = s\n            fa = fs"))
-V("C14-j-bracket-unpaired", "C14", "C14.6", (OPT, "        if fa * fs < 0:\n            b = s\n            fb = fs\n        else:\n            a = s\n            fa = fs", "        if fa * fs < 0:\n            b = s\n            fb = fs\n        else:\n            a = s"))
+V("C14-i-bracket-wrong-sign", "C14", "C14.6", (OPT, "        if D.ar_numpy.sign(fa) * D.ar_numpy.sign(fs) < 0:\n            b = s\n            fb = fs\n        else:\n            a = s\n            fa = fs", "        if D.ar_numpy.sign(fb) * D.ar_numpy.sign(fs) < 0:\n            b = s\n            fb = fs\n        else:\n            a = s\n            fa = fs"))
+V("C14-j-bracket-unpaired", "C14", "C14.6", (OPT, "        if D.ar_numpy.sign(fa) * D.ar_numpy.sign(fs) < 0:\n            b = s\n            fb = fs\n        else:\n            a = s\n            fa = fs", "        if D.ar_numpy.sign(fa) * D.ar_numpy.sign(fs) < 0:\n            b = s\n            fb = fs\n        else:\n            a = s"))
 V("C14-k-no-swap", "C14", "C14.6", (OPT, "        if D.ar_numpy.abs(fa) < D.ar_numpy.abs(fb):\n            a, b = b, a\n            fa, fb = fb, fa\n        conv = (fb == 0", "        conv = (fb == 0"))
-V("C14-l-vec-bracket", "C14", "C14.6", (OPT, "        mask = fa * fs < 0\n        mask[not_conv] = False\n        b[mask] = s[mask]\n        fb[mask] = fs[mask]", "        mask = fa * fs < 0\n        mask[not_conv] = False\n        b[mask] = s[mask]\n        fb[mask] = fb[mask]"))
-V("C14-s-bracket-swapped-branches", "C14", "silent", (OPT, "        if fa * fs < 0:\n            b = s\n            fb = fs\n        else:\n            a = s\n            fa = fs", "        if not (fa * fs < 0):\n            a, fa = s, fs\n        else:\n            b, fb = s, fs"))
+V("C14-l-vec-bracket", "C14", "C14.6", (OPT, "        mask = D.ar_numpy.sign(fa) * D.ar_numpy.sign(fs) < 0\n        mask[not_conv] = False\n        b[mask] = s[mask]\n        fb[mask] = fs[mask]", "        mask = D.ar_numpy.sign(fa) * D.ar_numpy.sign(fs) < 0\n        mask[not_conv] = False\n        b[mask] = s[mask]\n        fb[mask] = fb[mask]"))
+V("C14-s-bracket-swapped-branches", "C14", "silent", (OPT, "        if D.ar_numpy.sign(fa) * D.ar_numpy.sign(fs) < 0:\n            b = s\n            fb = fs\n        else:\n            a = s\n            fa = fs", "        if not (D.ar_numpy.sign(fa) * D.ar_numpy.sign(fs) < 0):\n            a, fa = s, fs\n        else:\n            b, fb = s, fs"))
 V("C03-n-restore-prev", "C03", "C03.6", (DS, "                            self.__t[self.counter + 1] = next_time\n", "                            self.__t[self.counter + 1] = prev_time\n"))
 V("C03-o-restore-stale-state", "C03", "C03.6", (DS, "                        next_state = self.__y[self.counter]\n", "                        next_state = self.__y[self.counter - 1] + dState\n"))
 V("C03-p-final-step-stops-loop", "C03", "C03.7", (DS, "                if not is_final_step:\n                    self.dt = new_dt\n", "                if not is_final_step:\n                    self.dt = new_dt\n                else:\n                    end_int = True\n"))
@@ -382,3 +382,7 @@ V("C12-t-override-after-newton", "C12", "C12.7", (ITY, _SWAP_OLD, _SWAP_NEW))
 V("C02-t-override-after-newton", "C02", "C02.4", (ITY, _SWAP_OLD, _SWAP_NEW))
 V("C10-u-class-property-read", "C10", "C10.6", (DS, "if self.__method.symplectic and issubclass(self.__method, integrators.ExplicitSymplecticIntegrator):", "if self.__method.symplectic and not self.__method.is_implicit:"))
 V("C10-v-missing-backend-name", "C10", "C10.6", (ITY, "self.staggered_mask = D.ar_numpy.astype(D.ar_numpy.asarray(staggered_mask, like=self.tableau_intermediate), ", "self.staggered_mask = D.astype(D.ar_numpy.asarray(staggered_mask, like=self.tableau_intermediate), "))
+V("C14-m-product-sign-reject", "C14", "C14.7", (OPT, "    if D.ar_numpy.sign(fa) * D.ar_numpy.sign(fb) > 0:\n        return", "    if fa * fb > 0:\n        return"))
+V("C14-n-product-sign-update", "C14", "C14.7", (OPT, "        if D.ar_numpy.sign(fa) * D.ar_numpy.sign(fs) < 0:\n            b = s", "        if fa * fs < 0:\n            b = s"))
+V("C14-o-product-sign-vec", "C14", "C14.7", (OPT, "        mask = D.ar_numpy.sign(fa) * D.ar_numpy.sign(fs) < 0\n", "        mask = fa * fs < 0\n"))
+V("C08-t-product-sign-vec", "C08", "C08.6", (OPT, "    bracketed = D.ar_numpy.sign(fa) * D.ar_numpy.sign(fb) < 0\n", "    bracketed = fa * fb < 0\n"))
